@@ -344,68 +344,76 @@ Proof.
 Qed.
 
 
-Lemma wi_enc_loop fuel falses : forall st work st',
-  WI st work -> enc_loop U P fuel falses st work = Some st' -> WI st' [].
+Lemma deps_done_weaken st st' w w' so :
+  grow st st' -> (forall x, In x w -> In x w') -> deps_done st w so -> deps_done st' w' so.
 Proof.
-  induction fuel as [|f IH]; intros st work st' H; destruct work as [|t rest]; simpl;
-    try (intro E; inversion E; subst; exact H); try discriminate.
-  destruct (run_one U P falses st t) as [st1 w1] eqn:E1. apply IH. eapply wi_run_one; eauto.
-Qed.
-
-Lemma enc_loop_grow fuel falses : forall st work st', enc_loop U P fuel falses st work = Some st' -> grow st st'.
-Proof.
-  induction fuel as [|f IH]; intros st work st'; destruct work as [|t rest]; simpl;
-    try (intro E; inversion E; subst; apply grow_refl); try discriminate.
-  destruct (run_one U P falses st t) as [st1 w1] eqn:E1. intro E.
-  eapply grow_trans; [eapply run_one_grow; eauto | eapply IH; eauto].
-Qed.
-
-Lemma deps_done_weaken st st' w so : grow st st' -> deps_done st [] so -> deps_done st' w so.
-Proof.
-  intros G [A B]. split; [intros s E; apply (g_deps _ _ G); eauto|].
+  intros G Hw [A B]. split; [intros s E; apply (g_deps _ _ G); eauto|].
   destruct (deps_of U P so) as [rs cs|].
   - destruct B as (B1 & B2 & B3). split; [intros n Hn; apply (g_pkgs _ _ G); auto|]. split.
-    + intros r Hr. destruct (B2 r Hr) as [[]|Hd]. right. apply (g_db _ _ G). exact Hd.
-    + intros v Hv. destruct (B3 v Hv) as [[]|Hd]. right. intros f Hf. apply (g_db _ _ G). apply Hd. exact Hf.
+    + intros r Hr. destruct (B2 r Hr) as [Hin|Hd]; [left; apply Hw; exact Hin|]. right. apply (g_db _ _ G). exact Hd.
+    + intros v Hv. destruct (B3 v Hv) as [Hin|Hd]; [left; apply Hw; exact Hin|].
+      right. intros f Hf. apply (g_db _ _ G). apply Hd. exact Hf.
   - intros s E. apply (g_db _ _ G). eauto.
 Qed.
 
-Lemma wi_grow_same st st' : WI st [] -> grow st st' -> e_sols st' = e_sols st -> e_pkgs st' = e_pkgs st -> WI st' [].
+Lemma wi_weaken st st' w w' :
+  WI st w -> grow st st' -> (forall x, In x w -> In x w') ->
+  (forall so, In so (e_sols st') -> In so (e_sols st) \/ In (TDeps so) w') ->
+  (forall n, In n (e_pkgs st') -> In n (e_pkgs st) \/ In (TCands n) w') -> WI st' w'.
 Proof.
-  intros [HS HP] G Es Ep. constructor.
-  - intros so Hso. rewrite Es in Hso. destruct (HS so Hso) as [[]|Hd]. right. eapply deps_done_weaken; eauto.
-  - intros n Hn. rewrite Ep in Hn. destruct (HP n Hn) as [[]|Hd]. right. exact (pkg_done_grow _ _ _ G Hd).
+  intros [HS HP] G Hw Hs Hp. constructor.
+  - intros so Hso. destruct (Hs so Hso) as [Hold|Hnew]; [|left; exact Hnew].
+    destruct (HS so Hold) as [Hin|Hd]; [left; apply Hw; exact Hin|]. right. eapply deps_done_weaken; eauto.
+  - intros n Hn. destruct (Hp n Hn) as [Hold|Hnew]; [|left; exact Hnew].
+    destruct (HP n Hold) as [Hin|Hd]; [left; apply Hw; exact Hin|]. right. exact (pkg_done_grow _ _ _ G Hd).
 Qed.
 
-Lemma wi_encode fuel falses st sos st' : WI st [] -> encode U P fuel falses st sos = Some st' -> WI st' [].
+Lemma wi_enc_run evs : forall st work tr st' work',
+  WI st work -> enc_run U P st work tr evs = Some (st', work') -> WI st' work'.
 Proof.
-  intros [HS HP]. unfold encode. destruct (queue_solvables st sos) as [st1 w] eqn:E1.
-  apply wi_enc_loop. pose proof (grow_queue_solvables _ _ _ _ E1) as G.
-  destruct (queue_solvables_marks _ _ _ _ E1) as [M1 M2]. constructor.
-  - intros so Hso. destruct (M2 so Hso) as [Hold|Hnew]; [|left; exact Hnew].
-    destruct (HS so Hold) as [[]|Hd]. right. eapply deps_done_weaken; eauto.
-  - intros n Hn. rewrite M1 in Hn. destruct (HP n Hn) as [[]|Hd]. right. exact (pkg_done_grow _ _ _ G Hd).
-Qed.
-
-Lemma wi_enc_solve fuel evs : forall st tr st', WI st [] -> enc_solve U P fuel st tr evs = Some st' -> WI st' [].
-Proof.
-  induction evs as [|e evs IH]; intros st tr st' H; simpl.
+  induction evs as [|e evs IH]; intros st work tr st' work' H; simpl.
   - intro E. inversion E. subst. exact H.
-  - destruct e as [sos|s|e].
-    + destruct (encode U P fuel (falses_of tr) st sos) as [st1|] eqn:E1; [|discriminate].
-      apply IH. eapply wi_encode; eauto.
-    + apply IH. destruct (register_marks st s) as [A B]. eapply wi_grow_same; [exact H | apply grow_register | exact B | exact A].
+  - destruct e as [sos|k|s|e].
+    + destruct work as [|x work0]; [|discriminate].
+      destruct (queue_solvables st sos) as [st1 w] eqn:E1. apply IH.
+      destruct (queue_solvables_marks _ _ _ _ E1) as [M1 M2].
+      eapply wi_weaken; [exact H | eapply grow_queue_solvables; eauto | intros x [] | exact M2 |].
+      intros n Hn. left. rewrite <- M1. exact Hn.
+    + destruct (remove_task k work) as [work0|] eqn:Er; [|discriminate].
+      destruct (run_one U P (falses_of tr) st k) as [st1 w1] eqn:E1. apply IH.
+      eapply wi_run_one; [|exact E1].
+      eapply wi_weaken; [exact H | apply grow_refl | | intros so Hso; left; exact Hso | intros n Hn; left; exact Hn].
+      intros x Hx. apply (remove_task_In k work work0 Er x) in Hx. destruct Hx as [Hx|Hx]; [left; symmetry; exact Hx | right; exact Hx].
+    + apply IH. destruct (register_marks st s) as [A B].
+      eapply wi_weaken; [exact H | apply grow_register | auto | intros so Hso; left; rewrite <- B; exact Hso |
+                         intros n Hn; left; rewrite <- A; exact Hn].
     + apply IH. exact H.
 Qed.
 
-(* T2 (completeness): whenever the encoder returns, everything it was asked to
-   encode -- and everything it queued itself -- is completely encoded *)
-Theorem enc_complete c fuel evs st :
-  enc_solve U P fuel (estate0 c) [] evs = Some st ->
+Lemma enc_run_grow evs : forall st work tr st' work', enc_run U P st work tr evs = Some (st', work') -> grow st st'.
+Proof.
+  induction evs as [|e evs IH]; intros st work tr st' work'; simpl.
+  - intro E. inversion E. subst. apply grow_refl.
+  - destruct e as [sos|k|s|e].
+    + destruct work as [|x work0]; [|discriminate].
+      destruct (queue_solvables st sos) as [st1 w] eqn:E1. intro E.
+      eapply grow_trans; [eapply grow_queue_solvables; eauto | eapply IH; eauto].
+    + destruct (remove_task k work) as [work0|]; [|discriminate].
+      destruct (run_one U P (falses_of tr) st k) as [st1 w1] eqn:E1. intro E.
+      eapply grow_trans; [eapply run_one_grow; eauto | eapply IH; eauto].
+    + intro E. eapply grow_trans; [apply grow_register | eapply IH; eauto].
+    + apply IH.
+Qed.
+
+(* T2 (completeness): for every completion order, once all pending futures of
+   the encoder have completed, everything it was asked to encode -- and
+   everything it queued itself -- is completely encoded *)
+Theorem enc_complete c evs st :
+  enc_run U P (estate0 c) [] [] evs = Some (st, []) ->
   (forall so, In so (e_sols st) -> deps_done st [] so) /\ (forall n, In n (e_pkgs st) -> pkg_done st n).
 Proof.
   intro E. assert (W0 : WI (estate0 c) []) by (constructor; simpl; intros x []).
-  destruct (wi_enc_solve fuel evs _ _ _ W0 E) as [HS HP]. split.
+  destruct (wi_enc_run evs _ _ _ _ _ W0 E) as [HS HP]. split.
   - intros so Hso. destruct (HS so Hso) as [[]|Hd]. exact Hd.
   - intros n Hn. destruct (HP n Hn) as [[]|Hd]. exact Hd.
 Qed.
@@ -452,15 +460,15 @@ Qed.
 (* T2': the database of the model is closed (in the sense E2 needs) for every
    selection whose members -- and the root -- were encoded and whose packages
    were encoded (exempt: solvables requested directly as soft requirements) *)
-Theorem enc_closed c fuel evs st S ex :
-  enc_solve U P fuel (estate0 c) [] evs = Some st ->
+Theorem enc_closed c evs st S ex :
+  enc_run U P (estate0 c) [] [] evs = Some (st, []) ->
   In None (e_sols st) ->
   (forall s, In s S -> In (Some s) (e_sols st)) ->
   (forall s, In s S -> In s ex \/ In (p_sol_name U s) (e_pkgs st)) ->
   one_per_nameb U S = true ->
   closedb U P (e_db st) S ex = true.
 Proof.
-  intros E Hroot HS HPk H1. destruct (enc_complete c fuel evs st E) as [HD HP].
+  intros E Hroot HS HPk H1. destruct (enc_complete c evs st E) as [HD HP].
   unfold closedb. rewrite H1, andb_true_r. apply andb_true_iff. split; [apply andb_true_iff; split|].
   - apply (deps_done_closedb st None). apply HD. exact Hroot.
   - apply forallb_forall. intros s Hs. apply (deps_done_closedb st (Some s)). apply HD. apply HS. exact Hs.
@@ -473,8 +481,8 @@ Qed.
    satisfies every clause of the encoder model (up to the package-level clauses
    of exempt soft solvables) and selects only encoded solvables of encoded
    packages, at most one per package, selects a valid set *)
-Theorem enc_valid (HW : WF U) c fuel evs st a S ex :
-  enc_solve U P fuel (estate0 c) [] evs = Some st ->
+Theorem enc_valid (HW : WF U) c evs st a S ex :
+  enc_run U P (estate0 c) [] [] evs = Some (st, []) ->
   (forall x, In x (e_db st) -> sat_or_exempt U a ex x = true) ->
   (forall s, In s S <-> a (VSol s) = true) -> a VRoot = true ->
   In None (e_sols st) ->
@@ -499,27 +507,19 @@ Proof.
   - eapply IH; eauto.
 Qed.
 
-Lemma encode_grow fuel falses st sos st' : encode U P fuel falses st sos = Some st' ->
-  grow st st' /\ forall so, In so sos -> In so (e_sols st').
+Lemma enc_run_requested evs : forall st work tr st' work', enc_run U P st work tr evs = Some (st', work') ->
+  forall so, In so (requested evs) -> In so (e_sols st').
 Proof.
-  unfold encode. destruct (queue_solvables st sos) as [st1 w] eqn:E1. intro E.
-  pose proof (enc_loop_grow _ _ _ _ _ E) as G. split.
-  - eapply grow_trans; [eapply grow_queue_solvables; eauto | exact G].
-  - intros so Hso. apply (g_sols _ _ G). eapply queue_solvables_all; eauto.
-Qed.
-
-Lemma enc_solve_requested fuel evs : forall st tr st', enc_solve U P fuel st tr evs = Some st' ->
-  grow st st' /\ forall so, In so (requested evs) -> In so (e_sols st').
-Proof.
-  induction evs as [|e evs IH]; intros st tr st'; simpl.
-  - intro E. inversion E. subst. split; [apply grow_refl | intros so []].
-  - destruct e as [sos|s|e].
-    + destruct (encode U P fuel (falses_of tr) st sos) as [st1|] eqn:E1; [|discriminate]. intro E.
-      destruct (encode_grow _ _ _ _ _ E1) as [G1 Q1]. destruct (IH _ _ _ E) as [G2 Q2].
-      split; [eapply grow_trans; eauto|]. intros so Hso. apply in_app_or in Hso. destruct Hso as [Hso|Hso].
-      * apply (g_sols _ _ G2). apply Q1. exact Hso.
-      * apply Q2. exact Hso.
-    + intro E. destruct (IH _ _ _ E) as [G2 Q2]. split; [eapply grow_trans; [apply grow_register | exact G2] | exact Q2].
+  induction evs as [|e evs IH]; intros st work tr st' work'; simpl.
+  - intro E. intros so [].
+  - destruct e as [sos|k|s|e].
+    + destruct work as [|x work0]; [|discriminate].
+      destruct (queue_solvables st sos) as [st1 w] eqn:E1. intro E. intros so Hso.
+      apply in_app_or in Hso. destruct Hso as [Hso|Hso]; [|eapply IH; eauto].
+      apply (g_sols _ _ (enc_run_grow _ _ _ _ _ _ E)). eapply queue_solvables_all; eauto.
+    + destruct (remove_task k work) as [work0|]; [|discriminate].
+      destruct (run_one U P (falses_of tr) st k) as [st1 w1] eqn:E1. apply IH.
+    + apply IH.
     + apply IH.
 Qed.
 
@@ -530,13 +530,13 @@ Proof. intro Hs. apply in_flat_map in Hs. destruct Hs as [k [Hk Hs]]. destruct k
 
 (* every solvable the solver asked for has its dependencies fetched -- now or in
    an earlier solve on the same solver *)
-Theorem enc_fetched H0 c0 fuel evs st :
-  CInv U c0 H0 -> enc_solve U P fuel (estate0 c0) [] evs = Some st ->
+Theorem enc_fetched H0 c0 evs st :
+  CInv U c0 H0 -> enc_run U P (estate0 c0) [] [] evs = Some (st, []) ->
   forall s, In (Some s) (requested evs) -> In (CDeps s) (H0 ++ e_calls st).
 Proof.
-  intros HI E s Hs. destruct (enc_solve_requested _ _ _ _ _ E) as [_ Q].
-  destruct (enc_complete c0 fuel evs st E) as [HD _]. destruct (HD _ (Q _ Hs)) as [A _].
-  destruct (enc_once U P H0 c0 fuel evs st HI E) as (_ & _ & _ & _ & _ & HC).
+  intros HI E s Hs. pose proof (enc_run_requested _ _ _ _ _ _ E) as Q.
+  destruct (enc_complete c0 evs st E) as [HD _]. destruct (HD _ (Q _ Hs)) as [A _].
+  destruct (enc_once U P H0 c0 evs st [] HI E) as (_ & _ & _ & _ & _ & HC).
   apply in_k_deps. rewrite (ci_deps U _ _ HC). apply -> in_rev. apply A. reflexivity.
 Qed.
 
@@ -576,15 +576,6 @@ Proof.
   - destruct (req_nonmatching U (e_cache st) v). intro E. inversion E. subst. auto.
 Qed.
 
-Lemma enc_loop_none fuel falses : forall st work st', enc_loop U P fuel falses st work = Some st' ->
-  In None (e_sols st') -> In None (e_sols st).
-Proof.
-  induction fuel as [|f IH]; intros st work st'; destruct work as [|t rest]; simpl;
-    try solve [intro E; inversion E; subst; auto]; try discriminate.
-  destruct (run_one U P falses st t) as [st1 w1] eqn:E1. intros E Hn.
-  eapply run_one_none; [exact E1|]. eapply IH; eauto.
-Qed.
-
 Lemma queue_solvables_none sos : forall st st' w, queue_solvables st sos = (st', w) ->
   In None (e_sols st') -> In None (e_sols st) \/ In None sos.
 Proof.
@@ -595,18 +586,20 @@ Proof.
     destruct (queue_solvable_none _ _ _ _ E1 H) as [H'|H']; [auto | subst so; auto].
 Qed.
 
-Lemma enc_solve_none fuel evs : forall st tr st', enc_solve U P fuel st tr evs = Some st' ->
+Lemma enc_run_none evs : forall st work tr st' work', enc_run U P st work tr evs = Some (st', work') ->
   In None (e_sols st') -> In None (e_sols st) \/ In None (requested evs).
 Proof.
-  induction evs as [|e evs IH]; intros st tr st'; simpl.
+  induction evs as [|e evs IH]; intros st work tr st' work'; simpl.
   - intro E. inversion E. subst. auto.
-  - destruct e as [sos|x|e].
-    + destruct (encode U P fuel (falses_of tr) st sos) as [st1|] eqn:E1; [|discriminate]. intros E Hn.
-      destruct (IH _ _ _ E Hn) as [H|H]; [|right; apply in_or_app; right; exact H].
-      unfold encode in E1. destruct (queue_solvables st sos) as [st2 w2] eqn:E2.
-      pose proof (enc_loop_none _ _ _ _ _ E1 H) as H2.
-      destruct (queue_solvables_none _ _ _ _ E2 H2) as [H3|H3]; [left; exact H3 | right; apply in_or_app; left; exact H3].
-    + intros E Hn. destruct (IH _ _ _ E Hn) as [H|H]; [left; rewrite register_sols in H; exact H | right; exact H].
+  - destruct e as [sos|k|x|e].
+    + destruct work as [|y work0]; [|discriminate].
+      destruct (queue_solvables st sos) as [st1 w] eqn:E1. intros E Hn.
+      destruct (IH _ _ _ _ _ E Hn) as [H|H]; [|right; apply in_or_app; right; exact H].
+      destruct (queue_solvables_none _ _ _ _ E1 H) as [H3|H3]; [left; exact H3 | right; apply in_or_app; left; exact H3].
+    + destruct (remove_task k work) as [work0|]; [|discriminate].
+      destruct (run_one U P (falses_of tr) st k) as [st1 w1] eqn:E1. intros E Hn.
+      destruct (IH _ _ _ _ _ E Hn) as [H|H]; [left; eapply run_one_none; eauto | right; exact H].
+    + intros E Hn. destruct (IH _ _ _ _ _ E Hn) as [H|H]; [left; rewrite register_sols in H; exact H | right; exact H].
     + apply IH.
 Qed.
 
@@ -615,32 +608,32 @@ Qed.
    encode, and get_candidates for exactly the names mentioned by them or by the
    root.  (On a conflict-free problem the solver never retracts an assignment,
    so these are the members of the solution: C09's second sentence.) *)
-Theorem enc_exact fuel evs st :
-  nohints U -> enc_solve U P fuel (estate0 cache0) [] evs = Some st ->
+Theorem enc_exact evs st :
+  nohints U -> enc_run U P (estate0 cache0) [] [] evs = Some (st, []) ->
   (forall s, In (CDeps s) (e_calls st) <-> In (Some s) (requested evs)) /\
   (forall n, In (CCands n) (e_calls st) <-> exists so, In so (requested evs) /\ In n (mentioned so)).
 Proof.
   intros NH E. split.
   - intro s. split.
     + eapply (enc_lazy U P NH cache0 []); [apply cinv0 | exact E].
-    + intro Hs. apply (enc_fetched [] cache0 fuel evs st (cinv0 U) E s Hs).
+    + intro Hs. apply (enc_fetched [] cache0 evs st (cinv0 U) E s Hs).
   - intro n. split.
-    + intro Hn. pose proof (enc_causal U P cache0 fuel evs st E) as HJ. rewrite Forall_forall in HJ.
+    + intro Hn. pose proof (enc_causal U P cache0 evs st [] E) as HJ. rewrite Forall_forall in HJ.
       destruct (HJ _ Hn) as [so [Hso Hm]]. exists so. split; [|exact Hm].
       assert (L0 : LI cache0 [] (estate0 cache0)) by (constructor; simpl; [intros x [] | intros x Hx; left; exact Hx]).
       assert (J0 : JI U P (estate0 cache0)) by constructor.
-      pose proof (li_enc_solve U P NH cache0 fuel evs [] _ _ _ L0 J0 E) as [A _]. simpl in A.
+      pose proof (li_enc_run U P NH cache0 evs [] _ _ _ _ _ L0 J0 (Forall_nil _) E) as [A _]. simpl in A.
       destruct so as [s|].
       * destruct (A s Hso) as [Hr|[]]. exact Hr.
-      * destruct (enc_solve_none _ _ _ _ _ E Hso) as [[]|Hr]. exact Hr.
-    + intros [so [Hso Hm]]. destruct (enc_solve_requested _ _ _ _ _ E) as [_ Q].
-      destruct (enc_complete cache0 fuel evs st E) as [HD HP]. pose proof (HD _ (Q _ Hso)) as [_ B].
+      * destruct (enc_run_none _ _ _ _ _ _ E Hso) as [[]|Hr]. exact Hr.
+    + intros [so [Hso Hm]]. pose proof (enc_run_requested _ _ _ _ _ _ E) as Q.
+      destruct (enc_complete cache0 evs st E) as [HD HP]. pose proof (HD _ (Q _ Hso)) as [_ B].
       assert (Hp : In n (e_pkgs st)).
       { unfold EncoderCalls.mentioned, vs_mentioned in Hm. destruct (deps_of U P so) as [rs cs|] eqn:Ed.
         - destruct B as (B1 & _). apply B1. unfold EncoderCalls.mentioned, vs_mentioned. rewrite Ed. exact Hm.
         - simpl in Hm. destruct Hm. }
       destruct (HP n Hp) as [Hc _].
-      destruct (enc_once U P [] cache0 fuel evs st (cinv0 U) E) as (_ & _ & _ & _ & _ & HC).
+      destruct (enc_once U P [] cache0 evs st [] (cinv0 U) E) as (_ & _ & _ & _ & _ & HC).
       apply (in_k_cands n ([] ++ e_calls st)). rewrite (ci_cands U _ _ HC). apply -> in_rev. exact Hc.
 Qed.
 
@@ -648,13 +641,13 @@ Qed.
 (* T2c (what the correspondence check evaluates on every run that returned a
    solution): if everything selected was encoded, the model's database is
    closed for the selection *)
-Theorem enc_final_closed c fuel evs st S ex :
-  enc_solve U P fuel (estate0 c) [] evs = Some st ->
+Theorem enc_final_closed c evs st S ex :
+  enc_run U P (estate0 c) [] [] evs = Some (st, []) ->
   enc_final_ok U st S ex = true -> one_per_nameb U S = true ->
   closedb U P (e_db st) S ex = true.
 Proof.
   intros E Hf H1. unfold enc_final_ok in Hf. apply andb_true_iff in Hf. destruct Hf as [Hr Hs].
-  rewrite forallb_forall in Hs. apply (enc_closed c fuel evs st S ex E).
+  rewrite forallb_forall in Hs. apply (enc_closed c evs st S ex E).
   - apply (mem_so_In None). exact Hr.
   - intros s Hin. specialize (Hs s Hin). apply andb_true_iff in Hs. apply (mem_so_In (Some s)). apply Hs.
   - intros s Hin. specialize (Hs s Hin). apply andb_true_iff in Hs. destruct Hs as [_ Hs].
